@@ -43,6 +43,34 @@ const condPrelude = `(defun hh (c &rest d) (list 'hh c d))
 
 var condAlphabet = []string{"e1", "e2", "internal-panic", "condition"}
 
+// names the interpreter uses for its own errors: raised from lisp they are
+// ordinary conditions like any other
+var interpreterConds = []string{"context-cancelled", "step-limit-exceeded", "eval-nesting-exceeded", "sleep-limit-exceeded", "error", "stack-overflow", "unbound-symbol"}
+
+func (g *condGen) cond() string {
+	if g.r.Chance(1, 7) {
+		return PickStr(g.r, interpreterConds)
+	}
+	return PickStr(g.r, condAlphabet)
+}
+
+// isScramble recognises the scrambleData statement, also after it went
+// through a nested source string and was parsed back into a list.
+func isScramble(n *Node) bool {
+	if !n.IsL {
+		return strings.HasPrefix(n.Atom, "(progn (ignore-errors (map 'list (lambda (zx)")
+	}
+	return n.Head() == "progn" && len(n.List) == 3 && n.List[1].IsL && n.List[1].Head() == "ignore-errors" && len(n.List[1].List) == 2 &&
+		n.List[1].List[1].IsL && n.List[1].List[1].Head() == "map" && n.List[2].IsL && len(n.List[2].List) == 0
+}
+
+// scrambleData is a handler statement that changes, in place, every list it
+// was handed as error data.  The error being handled is not its arguments: a
+// later rethrow carries the data the error was raised with.
+func scrambleData(dvar string) *Node {
+	return A(fmt.Sprintf("(progn (ignore-errors (map 'list (lambda (zx) (ignore-errors (stable-sort > zx)) ()) %s)) ())", dvar))
+}
+
 // ---------------------------------------------------------------- generator
 
 type condGen struct {
@@ -111,7 +139,7 @@ func (g *condGen) F(d int) *Node {
 	case 6:
 		return Call("if", g.F(d-1), g.F(d-1), g.F(d-1))
 	case 7:
-		c := PickStr(g.r, condAlphabet)
+		c := g.cond()
 		n := g.r.Pick([]int{2, 5, 2})
 		xs := []*Node{A("error"), QS(c)}
 		for i := 0; i < n; i++ {
@@ -159,7 +187,7 @@ func (g *condGen) handlerBind(d int) *Node {
 	nb := g.r.Pick([]int{1, 6, 4, 2})
 	var binds []*Node
 	for i := 0; i < nb; i++ {
-		spec := PickStr(g.r, condAlphabet)
+		spec := g.cond()
 		binds = append(binds, L(A(spec), g.H(d-1)))
 	}
 	xs := []*Node{A("handler-bind"), L(binds...)}
@@ -188,6 +216,9 @@ func (g *condGen) H(d int) *Node {
 			xs = append(xs, g.probe(Call("list", A(c), A(dd))), Call("sim:snap"))
 			if g.r.Chance(1, 3) {
 				xs = append(xs, g.F(d-1))
+			}
+			if g.r.Chance(1, 2) {
+				xs = append(xs, scrambleData(dd))
 			}
 			xs = append(xs, Call("rethrow"))
 			n = 0
@@ -382,6 +413,9 @@ func (m *cmodel) evalSeq(forms []*Node, env *menv) (mval, *mraise) {
 
 func (m *cmodel) eval(n *Node, env *menv) (mval, *mraise) {
 	m.steps++
+	if isScramble(n) {
+		return mval{}, nil // no effect on the error being handled, value ()
+	}
 	if !n.IsL {
 		if i, err := strconv.Atoi(n.Atom); err == nil {
 			return mval{k: mInt, i: i}, nil
@@ -782,6 +816,9 @@ func renderMData(d []mval) string {
 // condValid checks that a (possibly shrunk) form is still inside the
 // restricted grammar the model defines.
 func condValid(n *Node) bool {
+	if isScramble(n) {
+		return true
+	}
 	if !n.IsL {
 		return n.Atom != "" && !strings.HasPrefix(n.Atom, "\"")
 	}
@@ -898,6 +935,7 @@ func (condEngine) Run(ci any, st *Stats) *Violation {
 	c := ci.(*CondCase)
 	for _, f := range c.Forms {
 		if !condValid(f) {
+			st.Inc("discard_outside_grammar")
 			return nil // outside the model's grammar (a shrink candidate): not a case
 		}
 	}
